@@ -20,7 +20,7 @@ RULE = (
     "per-target (n_in, n_out, mtime order pattern, record state, verdict)."
 )
 ASSUMPTIONS = [
-    "mtimes differ by >= 10 s or are exactly equal; no symlinks",
+    "mtimes differ by >= 10 s or are exactly equal; symbolic links only for source files (the data's timestamp counts)",
     "cli lane: simulated Slurm (simbin) stands in for the scheduler",
 ]
 
@@ -54,7 +54,10 @@ def gen_case(rng, idx, tier):
     # a stray record while hashing is off must be ignored
     stray = (not hashing) and rng.random() < 0.3
     backend = {t["name"]: rng.choice(["unknown", "unknown", "completed"]) for t in dag["targets"]}
+    # some source files are symbolic links to data kept outside the project; the link's own timestamp differs
+    symlinks = {s: rng.choice([0, 3]) for s in dag["sources"] if rng.random() < 0.2}
     return {
+        "symlinks": symlinks,
         "lane": lane,
         "dag": dag,
         "ticks": ticks,
@@ -125,7 +128,10 @@ def classify(case, tname, variant_targets):
 
 def materialise(case, proj, variant):
     for f, tk in case["ticks"].items():
-        proj.set_file(f, tk)
+        if f in case.get("symlinks", {}) and tk is not None:
+            proj.set_file(f, tk, symlink=True, link_tick=case["symlinks"][f])
+        else:
+            proj.set_file(f, tk)
     proj.write_workflow(gen.render_workflow(variant))
     cfg = {"backend": "slurm"}
     if case["hashing"]:
